@@ -1177,4 +1177,45 @@ Proof.
       lia.
 Qed.
 
+(* ---- load depends only on the bits the pixel owns ------------------------------------------------------------ *)
+Lemma byte_eq_of_bits a b :
+  0 <= a < 256 -> 0 <= b < 256 -> (forall q, 0 <= q < 8 -> Z.testbit a q = Z.testbit b q) -> a = b.
+Proof.
+  intros Ha Hb H. apply Z.bits_inj'. intros q Hq. destruct (Z_lt_ge_dec q 8); [apply H; lia|].
+  rewrite !Z.bits_above_log2; auto; try lia.
+  - destruct (Z.eq_dec b 0) as [->|]; [cbn; lia|]. apply Z.log2_lt_pow2; try lia. apply Z.lt_le_trans with (2 ^ 8); [cbn; lia|]. apply Z.pow_le_mono_r; lia.
+  - destruct (Z.eq_dec a 0) as [->|]; [cbn; lia|]. apply Z.log2_lt_pow2; try lia. apply Z.lt_le_trans with (2 ^ 8); [cbn; lia|]. apply Z.pow_le_mono_r; lia.
+Qed.
+
+Lemma load_depends_on_owned_bits t (alt : order) b1 b2 i :
+  bytes_ok b1 -> bytes_ok b2 -> buf_len b1 = buf_len b2 -> len_ok b1 ->
+  0 <= i < pixels_total t (buf_len b1) ->
+  (forall k q, 0 <= q < 8 -> owns t alt i k q -> Z.testbit (byte_at b1 k) q = Z.testbit (byte_at b2 k) q) ->
+  load t alt b1 i = load t alt b2 i.
+Proof.
+  intros H1 H2 El Hl Hi H. pose proof (len_ok_usize b1 Hl) as Hu. unfold owns in H.
+  destruct (rawty_cases t) as [St|[->|Mt]].
+  - destruct (sub_total t (buf_len b1) i St (proj1 Hi) (buf_len_nonneg b1)) as (T & M & D).
+    replace (bits t <? 8) with true in H by (destruct St as [->|[->| ->]]; reflexivity). cbv iota zeta in H.
+    rewrite !load_sub_in by (auto; rewrite <- ?El; auto).
+    pose proof (sb_load t alt (i mod ppb t) (byte_at b1 (i / ppb t)) St M (byte_at_ok _ _ H1)) as L1.
+    pose proof (sb_load t alt (i mod ppb t) (byte_at b2 (i / ppb t)) St M (byte_at_ok _ _ H2)) as L2.
+    cbv zeta in L1, L2. destruct L1 as (L1 & K & K0 & K8). destruct L2 as (L2 & _).
+    rewrite L1, L2. f_equal. set (lo := bit_index t alt (i mod ppb t)) in *.
+    destruct (ppb_bits t St) as (_ & _ & Bp).
+    apply Z.bits_inj'. intros j Hj. destruct (Z_lt_ge_dec j (bits t)).
+    + rewrite !Z.mod_pow2_bits_low, !Z.div_pow2_bits by lia. apply H.
+      * clear - K0 K8 l Hj. lia.
+      * split; [reflexivity|]. rewrite <- K. clear - l Hj. lia.
+    + rewrite !Z.mod_pow2_bits_high by lia. reflexivity.
+  - change (bits U8 <? 8) with false in H. cbv iota in H. change (nbytes U8) with 1 in H.
+    rewrite u8_total in Hi. rewrite !load_u8_in by (rewrite <- ?El; auto). f_equal. f_equal.
+    apply byte_eq_of_bits; try apply byte_at_ok; auto. intros q Hq. apply H; auto. lia.
+  - destruct (multi_nbytes t Mt) as [Hn Hb8].
+    replace (bits t <? 8) with false in H by lia. cbv iota in H.
+    rewrite !load_multi_in by (auto; rewrite <- ?El; auto). f_equal. f_equal.
+    unfold pixel_bytes. apply map_ext_in. intros k Hk. apply In_range in Hk.
+    apply byte_eq_of_bits; try apply byte_at_ok; auto. intros q Hq. apply H; auto. nia.
+Qed.
+
 End WithUsize.
